@@ -29,9 +29,12 @@ Devs == {"numpydoc_no_types_unparsable",   \* wild : numpydoc with emit_types=Fa
          "str_default_with_dot_truncated", \* wild : a string default containing a full stop is cut at it ("~/data/x.txt" -> "~/data/x", ".txt" lands in the description)
          "none_default_as_str",            \* exact: a None default comes back as the string '(None)'
          "empty_str_default_lost",         \* exact: an empty-string default is dropped and 'Defaults to' stays in the description
+         "wrapped_default_tail_misread",   \* wild : word wrap falls inside the tail `Defaults to <value>` of a long description: the default is lost or carries the line break
          "google_undescribed_return_misread", \* wild (return entry): Google, a return entry with a type but no description: `int:` is read as the description
          "gn_return_default_forced"}       \* exact: Google/NumPy give the return entry a zero/None default once any parameter has one
 
+\* (the parser was asked to keep the sentence `Defaults to ..` in the description: only Docstring.tla varies it)
+KeepOf(cfg) == IF "keep" \in DOMAIN cfg THEN cfg.keep ELSE FALSE
 \* the type is written into the docstring (Google always writes it)
 Written(cfg, p) == p.typ # "absent" /\ (cfg.et \/ cfg.style = "google")
 ParsedDefault(cfg, p) == cfg.edd /\ p.def \notin {"absent", "str_empty"}
@@ -44,7 +47,7 @@ CodeDrops(en, cfg, p) == "code_default_type_dropped" \in en /\ cfg.edd /\ p.def 
 AsBuiltPk(en, cfg, p, after) ==
   LET e0 == NormP(cfg, p)
       e1 == IF "none_default_as_str" \in en /\ cfg.edd /\ p.def = "None"
-            THEN [e0 EXCEPT !.def = "str_paren_None", !.typs = IF Written(cfg, p) THEN {p.typ} ELSE {"str"}]
+            THEN [e0 EXCEPT !.def = "str_paren_None", !.typs = IF Written(cfg, p) THEN {p.typ} ELSE {IF KeepOf(cfg) /\ cfg.style = "rest" THEN "Opt_str" ELSE "str"}]
             ELSE e0
       e2 == IF "empty_str_default_lost" \in en /\ cfg.edd /\ p.def = "str_empty"
             THEN [e1 EXCEPT !.def = IF after /\ cfg.style \in {"google", "numpydoc"}
@@ -65,6 +68,9 @@ AsBuilt(en, cfg, i) ==
       \* RETURN entry: without its type line the section is read as two parameters called "Returns" and "-------")
       wildNp == "numpydoc_no_types_unparsable" \in en /\ cfg.style = "numpydoc" /\ ~cfg.et /\ i.ret # NoRet
       retOnly == "gn_return_only_mangled" \in en /\ cfg.style \in {"google", "numpydoc"} /\ i.ret # NoRet /\ i.params = <<>>
+      wildWrap == "wrapped_default_tail_misread" \in en /\ cfg.edd
+                  /\ \E k \in 1..Len(i.params) : /\ i.params[k].doc = "long" /\ i.params[k].def # "absent"
+                                                  /\ (cfg.style = "numpydoc" \/ (cfg.style = "rest" /\ ~KeepOf(cfg) /\ i.params[k].def = "str_odd"))
       wildCode == FALSE
       \* (a QUOTED default -- any typed string -- is read to its closing quote since the repair; an untyped entry's default is written
       \* bare, where a full stop cannot be told from the end of the sentence)
@@ -79,10 +85,11 @@ AsBuilt(en, cfg, i) ==
       fired == UNION {FiredP(en, cfg, p) : p \in ents}
                \cup (IF wildNp THEN {"numpydoc_no_types_unparsable"} ELSE {})
                \cup (IF wildDot THEN {"str_default_with_dot_truncated"} ELSE {})
+               \cup (IF wildWrap THEN {"wrapped_default_tail_misread"} ELSE {})
                \cup (IF forced THEN {"gn_return_default_forced"} ELSE {})
                \cup (IF retOnly THEN {"gn_return_only_mangled"} ELSE {})
                \cup (IF gUndesc THEN {"google_undescribed_return_misread"} ELSE {})
-  IN [out |-> [raises |-> "no", wild |-> wildNp \/ wildCode \/ wildDot, doc |-> i.doc,
+  IN [out |-> [raises |-> "no", wild |-> wildNp \/ wildCode \/ wildDot \/ wildWrap, doc |-> i.doc,
                params |-> [k \in 1..Len(i.params) |->
                              AsBuiltPk(en, cfg, i.params[k], \E j \in 1..(k - 1) : ParsedDefault(cfg, i.params[j]))],
                ret |-> ret1],
